@@ -42,7 +42,7 @@ def main():
                 print(d.name, "patch does not apply:", r.stderr.strip()[:200])
                 continue
             for c in RUN.get(pid, [pid]):
-                out = sh([str(ROOT / "check"), c, "--tier", "quick"], cwd=str(ROOT), env=dict(os.environ, PYTRAPIC_REPO=str(scratch)))
+                out = sh([str(ROOT / "check"), c, "--tier", "quick"], cwd=str(ROOT), env=dict(os.environ, PYTRAPIC_REPO=str(scratch), VERIF_OUT=str(scratch / "out")))
                 viol = [l for l in out.stdout.splitlines() if l.startswith("VIOLATION")]
                 failed = [l.strip().replace("failed obligation=", "") for l in out.stdout.splitlines() if l.strip().startswith("failed obligation=")]
                 det[c] = {"exit": out.returncode, "violations": len(viol), "obligations": failed[:4], "no_failing_input_found": sum("no-failing-input-found" in l for l in viol)}
